@@ -249,6 +249,8 @@ def r08_3_implicit(ctx, rid='R08.3'):
                 # I7: the text of a node used as a hash key (dict/set construction, keyed lookup): only a ScalarNode's value is a
                 # string - the value of a sequence or mapping used as a key is a list
                 hk = _hashed_node_value(n)
+                if hk is None:
+                    hk = _hashed_membership(fi, n)
                 if hk is not None:
                     f = f or fn_of(fi)
                     if f.live(n):
@@ -447,6 +449,30 @@ def _is_node_value(e: ast.AST) -> bool:
     return isinstance(e, ast.Attribute) and e.attr == 'value'
 
 
+def _hashed_membership(fi: FunctionInfo, n: ast.AST) -> Optional[ast.Attribute]:
+    """`X.value in S` / `not in S` with S a set or a dict (a parameter annotated so, or a local bound to one): the test hashes X.value"""
+    if not (isinstance(n, ast.Compare) and len(n.ops) == 1 and isinstance(n.ops[0], (ast.In, ast.NotIn)) and _is_node_value(n.left)):
+        return None
+    box = n.comparators[0]
+    if isinstance(box, (ast.Set, ast.Dict, ast.SetComp, ast.DictComp)):
+        return n.left
+    if isinstance(box, ast.Call) and ((isinstance(box.func, ast.Name) and box.func.id in ('set', 'frozenset', 'dict', 'OrderedDict'))
+                                      or (isinstance(box.func, ast.Attribute) and box.func.attr == 'keys' and not box.args)):
+        return n.left
+    if isinstance(box, ast.Name):
+        ann = fi.param_annotation(box.id)
+        if ann is not None:
+            t = norm(ann)
+            return n.left if any(k in t for k in ('Set[', 'Dict[', 'Mapping[', 'FrozenSet[', 'OrderedDict')) or t in ('set', 'dict', 'frozenset') else None
+        binds = [x for x in walk_function(fi.node) if isinstance(x, (ast.Assign, ast.AnnAssign)) and any(
+            isinstance(t_, ast.Name) and t_.id == box.id for t_ in (x.targets if isinstance(x, ast.Assign) else [x.target]))]
+        vals = [x.value for x in binds if x.value is not None]
+        if vals and all(isinstance(v, (ast.Set, ast.Dict, ast.SetComp, ast.DictComp)) or (
+                isinstance(v, ast.Call) and isinstance(v.func, ast.Name) and v.func.id in ('set', 'frozenset', 'dict', 'OrderedDict')) for v in vals):
+            return n.left
+    return None
+
+
 def _hashed_node_value(n: ast.AST) -> Optional[ast.Attribute]:
     """the `X.value` expression that construct `n` hashes, if any"""
     if isinstance(n, ast.DictComp) and _is_node_value(n.key):
@@ -555,11 +581,78 @@ def r08_5_key_texts(ctx, rid='R08.5'):
     r.done()
 
 
+def r08_16_format_templates(ctx, rid='R08.16'):
+    """str.format interprets its receiver: `{`/`}` in it are replacement fields.  A receiver that contains text from the document or
+    from a user's exception therefore raises KeyError / IndexError / ValueError while an error message is being made - the load
+    fails with something that is neither a RecognitionError nor a YAML error.  Every template must be program text."""
+    P = ctx.P
+    r = ctx.rule(rid, 'every receiver of .format() is a template written in the program (a literal, a concatenation / conditional '
+                      'of literals, or a local only ever bound to such), never text that contains data', floor=20)
+
+    def literal(e, f, seen, use):
+        if isinstance(e, ast.Constant) and isinstance(e.value, str):
+            return True
+        if isinstance(e, ast.BinOp) and isinstance(e.op, ast.Add):
+            return literal(e.left, f, seen, use) and literal(e.right, f, seen, use)
+        if isinstance(e, ast.IfExp):
+            return literal(e.body, f, seen, use) and literal(e.orelse, f, seen, use)
+        if isinstance(e, ast.Name):
+            if e.id in seen:
+                return True
+            seen = seen | {e.id}
+            binds = [n for n in f.walk() if isinstance(n, (ast.Assign, ast.AnnAssign, ast.AugAssign, ast.For, ast.With, ast.NamedExpr, ast.comprehension))
+                     and any(isinstance(x, ast.Name) and x.id == e.id and isinstance(x.ctx, ast.Store)
+                             for t in (n.targets if isinstance(n, ast.Assign) else [n.target] if not isinstance(n, ast.With)
+                                       else [i.optional_vars for i in n.items if i.optional_vars is not None]) for x in ast.walk(t))]
+            if not binds or e.id in f.fi.params:
+                return False
+            for b in binds:
+                if isinstance(b, (ast.Assign, ast.AnnAssign)) and b.value is not None and isinstance(
+                        b.targets[0] if isinstance(b, ast.Assign) else b.target, ast.Name):
+                    if not literal(b.value, f, seen, b):
+                        return False
+                elif isinstance(b, ast.AugAssign) and isinstance(b.op, ast.Add):
+                    if not literal(b.value, f, seen, b):
+                        return False
+                else:
+                    return False
+            return True
+        return False
+    n = 0
+    for fi in P.yatiml_functions():
+        f = None
+        if fi.key.startswith(('yatiml.dumper:', 'yatiml.representers:')):
+            continue        # not on the way of a load
+        for c in walk_function(fi.node):
+            if isinstance(c, ast.Call) and isinstance(c.func, ast.Attribute) and c.func.attr in ('format', 'format_map') \
+                    and not (isinstance(c.func.value, ast.Name) and c.func.value.id in ('string', 'logger')):
+                recv = c.func.value
+                if isinstance(recv, ast.Constant):
+                    if isinstance(recv.value, str):
+                        n += 1
+                    continue
+                f = f or fn_of(fi)
+                if not f.live(c):
+                    continue
+                r.check(literal(recv, f, frozenset(), c), '%s: template %s is program text' % (fi.qual, norm(recv)[:40]),
+                        '%s:format-template:%s' % (fi.key, f.alpha.text(recv)[:60]), fi.loc(c),
+                        'the receiver of .format() (%s) is not a literal template: it can contain text taken from the document or from '
+                        'an exception raised by user code, and a `{` or `}` in that text makes .format() raise KeyError / IndexError / '
+                        'ValueError instead of producing the message' % norm(recv)[:60])
+    r.ok('%d .format() calls on string literals' % n)
+    r.instances += n - 1 if n else 0
+    r.discharged += n - 1 if n else 0
+    r.done()
+
+
 # =====================================================================================================
 # C17
 # =====================================================================================================
 
 MARK_ATTRS = ('start_mark', 'end_mark')
+
+
+_CURRENT_PROGRAM = [None]
 
 
 def positioned(f: Fn, e: ast.AST, depth: int = 4, seen=None) -> bool:
@@ -590,6 +683,20 @@ def positioned(f: Fn, e: ast.AST, depth: int = 4, seen=None) -> bool:
             return positioned(f, e.args[0], depth - 1)
         if nm == 'format_rec_error':
             return True         # all leaves are positioned by induction (R17.1 on the leaves)
+        # a message made by a helper of the package that could not be inlined (it returns from inside a loop): every message
+        # the helper can return is positioned - summary of the callee, `None` (no message) aside
+        P_ = _CURRENT_PROGRAM[0]
+        if P_ is not None and nm and isinstance(e.func, (ast.Name, ast.Attribute)) and depth > 0:
+            cands = [g for g in P_.yatiml_functions() if g.cls is None and g.qual == nm]
+            if len(cands) == 1:
+                memo = P_.__dict__.setdefault('_positioned_summary', {})
+                if cands[0].key not in memo:
+                    memo[cands[0].key] = False      # recursion guard
+                    gf = fn_of(cands[0])
+                    rets = [x for x in gf.returns() if not (x.value is None or (isinstance(x.value, ast.Constant) and x.value.value is None))]
+                    memo[cands[0].key] = bool(rets) and not gf.falls_off_end() is None and all(
+                        positioned_at(gf, x, x.value) for x in rets)
+                return memo[cands[0].key]
         if nm == 'join' and e.args:
             a = e.args[0]
             elts = a.elts if isinstance(a, (ast.Tuple, ast.List)) else [a]
@@ -643,6 +750,7 @@ def r17_1_positions(ctx):
     P = ctx.P
     r = ctx.rule('R17.1', 'every RecognitionError message and every leaf of a recognition error tree carries a source position '
                           '(induction over message construction)', floor=20)
+    _CURRENT_PROGRAM[0] = P
     for mn in LOAD_MODULES:
         m = P.module(mn)
         for fi in sorted(m.functions.values(), key=lambda x: x.key):
